@@ -43,6 +43,46 @@ class Infra(Exception):
     pass
 
 
+class LineCover:
+    """VERIF_COVER=1: record which source lines of the library the streams of this run executed (sys.monitoring,
+    each line reported once); written to evidence/coverage/<pid>.json and summarised by harness/covreport.py.
+    Not part of a check's verdict: it shows where the generators do not reach."""
+
+    def __init__(self):
+        self.hit = set()
+        self.on = False
+
+    def start(self):
+        mon = getattr(sys, 'monitoring', None)
+        if mon is None:
+            return
+        src = os.path.realpath(os.path.join(REPO, 'src')) + os.sep
+        tool = mon.COVERAGE_ID
+        try:
+            mon.use_tool_id(tool, 'verif-cover')
+        except ValueError:
+            return
+
+        def on_line(code, line):
+            fn = code.co_filename
+            if fn.startswith(src) or os.path.realpath(fn).startswith(src):
+                self.hit.add((os.path.relpath(os.path.realpath(fn), src), line))
+            return mon.DISABLE
+        mon.register_callback(tool, mon.events.LINE, on_line)
+        mon.set_events(tool, mon.events.LINE)
+        self.on = True
+
+    def write(self, pid, tier):
+        if not self.on:
+            return
+        by = {}
+        for fn, ln in self.hit:
+            by.setdefault(fn, []).append(ln)
+        os.makedirs(os.path.join(ROOT, 'evidence', 'coverage'), exist_ok=True)
+        with open(os.path.join(ROOT, 'evidence', 'coverage', pid + '.json'), 'w') as f:
+            json.dump({'property_id': pid, 'tier': tier, 'lines': {k: sorted(v) for k, v in sorted(by.items())}}, f)
+
+
 def log(*a):
     print(*a, file=sys.stderr, flush=True)
 
@@ -681,8 +721,13 @@ def main(argv):
     a = ap.parse_args(argv)
     seed = a.seed if a.seed is not None else int(os.environ.get('VERIF_SEED', '0') or 0)
     tier = a.tier if a.tier in ('quick', 'thorough') else 'quick'
+    cover = LineCover()
+    if os.environ.get('VERIF_COVER'):
+        cover.start()
     try:
-        return run_check(a.property.upper(), tier, seed, a.replay)
+        rc = run_check(a.property.upper(), tier, seed, a.replay)
+        cover.write(a.property.upper(), tier)
+        return rc
     except Infra as e:
         log('INFRASTRUCTURE ERROR: %s' % e)
         return 2
